@@ -13,6 +13,37 @@ CLAIMED = {
    ref="DESIGN.md §8 C02, §7 M1",
    note="Lean kernel + {propext, Classical.choice, Quot.sound}; the hand-written model is tied to the code only by the differential run (sampled); usize = 64 bit",
    technique="Lean 4 proof (induction over chunks with a strict-prefix invariant) + differential correspondence"),
+ "C06": dict(
+   text="Lean 4 theorems over a small-step concurrent model of events.rs (any number of sender threads doing atomic "
+        "enqueues, clock ticks, the receiver split at every shared access), proved as inductive invariants over all "
+        "reachable states = all schedules: sent = returned ++ queued for the plain and priority channels (nothing lost, "
+        "invented or duplicated; FIFO, hence FIFO per sender), timer keys pairwise distinct, every returned timer was "
+        "scheduled and is returned once, every uncancelled unreturned timer is still held, try_receive drains. Tie: "
+        "many-thread stress histories judged by the same history predicate in the Lean driver + two-thread grid "
+        "histories replayed step by step through the model.",
+   ref="DESIGN.md §8 C06, §7 M3",
+   note="Lean kernel + standard axioms; crossbeam-channel linearizable FIFO assumed; tie samples schedules (weaker than the differential ties)",
+   technique="Lean 4 proof (inductive invariants over a small-step concurrent model) + trace conformance"),
+ "C08": dict(
+   text="Lean 4 theorems over the same concurrent model: never_early (a timer is returned only at a time >= schedule "
+        "time + duration), cancel_exact (a cancel enqueued strictly before the deadline implies the timer is never "
+        "returned, in any continuation of any schedule; relies on the clock being read before the commands are "
+        "folded), cancel/schedule isolation (other timers, also on the same instant, are untouched; keys are unique). "
+        "Tie: two-thread grid histories with cancels while the receiver is idle or blocked, validated against the "
+        "model; stress histories checking never-early / cancel-exact for every timer.",
+   ref="DESIGN.md §8 C08, §7 M3",
+   note="Lean kernel + standard axioms; monotone shared clock assumed; 'fires without a live sender handle' is exercised, not modelled",
+   technique="Lean 4 proof (inductive invariants incl. clock-read-before-fold) + trace conformance"),
+ "C16": dict(
+   text="Lean 4 theorems over the same concurrent model: in no reachable state is the receiver blocked in select! while "
+        "an event is deliverable and no watched source is ready (no_stuck_with_work; the as-found select, which did not "
+        "watch the command channel, has a reachable stuck state — decided in MioModel/AsFound); receive_timeout reports "
+        "nothing only after its absolute deadline and only when nothing is deliverable. Tie: grid histories in which "
+        "every kind of send arrives while the receiver is blocked; result and return instant of every call compared "
+        "with the model; persistent late returns are failures.",
+   ref="DESIGN.md §8 C16, §7 M3",
+   note="Lean kernel + standard axioms; real-time wake-up latency is monitored (1 unit = 500 us tolerance), not proved; crossbeam select semantics assumed",
+   technique="Lean 4 proof (reachability invariant: blocked implies some wake-up enabled) + trace conformance"),
  "C07": dict(
    text="Lean 4 theorems over the sequential semantics of an executable model of events.rs (three FIFO channels + "
         "key-sorted timer map, logical time): priority first; else the expired timer with the least (deadline, "
